@@ -10,13 +10,13 @@ use std::collections::BTreeMap;
 use std::str::FromStr;
 
 pub fn def() -> CheckDef {
-    CheckDef { id: "C15", run, meta, dbg: false, replay: Some(replay) }
+    CheckDef { id: "C15", run, meta, dbg: true, replay: Some(replay) }
 }
 
 fn meta(_ctx: &Ctx) -> Meta {
     Meta {
         level: "exploration",
-        rule: "bounded-exhaustive component tuples (names over {a,1,.,-,_} up to length 3 starting alphanumeric; epoch in {\"\",0,1,12,2^31-1,2^31,2^32-1}; version and release non-empty over {a,1,.,~,^} up to length 2; arch in {x,x86_64,noarch,a1}) + seeded random tuples with components up to length 12 + the NEVRAs of the repository's asset packages: format with Display / as_normalized_form / nvra, parse again, compare component-wise with the tuple itself; every CompressionType through Display->FromStr; no-panic on all strings up to length 5 over {-,.,:,a,é} and on random text. The compression-type round trip is repeated in builds of the library with three other cargo feature sets (none, gzip only, the crate's default set; featprobe/). distinct_nontrivial = distinct tuples/strings".into(),
+        rule: "bounded-exhaustive component tuples (names over {a,1,.,-,_} up to length 3 starting alphanumeric; epoch in {\"\",0,1,12,2^31-1,2^31,2^32-1}; version and release non-empty over {a,1,.,~,^} up to length 2; arch in {x,x86_64,noarch,a1}) + seeded random tuples with components up to length 12 + the NEVRAs of the repository's asset packages: format with Display / as_normalized_form / nvra, parse again, compare component-wise with the tuple itself; every CompressionType through Display->FromStr; no-panic on all strings up to length 5 over {-,.,:,a,é} and on random text. The compression-type round trip is repeated in builds of the library with three other cargo feature sets (none, gzip only, the crate's default set; featprobe/). Runs in release and (random parts reduced) in the overflow-checking verifdbg profile. distinct_nontrivial = distinct tuples/strings".into(),
         assumptions: vec!["real-package component constraints (rpm's own): name has no ':', version/release have no '-' or ':', arch has no '-', '.' or ':', epoch is digits or empty, all but epoch non-empty".into()],
         floor_distinct: 1000,
     }
@@ -157,7 +157,7 @@ fn run(ctx: &Ctx, rep: &Report) {
     rep.set_exhaustive(true);
 
     // random longer tuples
-    let nrand: u64 = ctx.tier.pick(100_000, 60_000_000);
+    let nrand: u64 = ctx.tier.pick(100_000, 60_000_000) / if ctx.is_dbg() { 20 } else { 1 };
     let chunk = 2000u64;
     let name_alpha = ['a', 'B', 'z', '0', '9', '.', '-', '_', '+', 'é'];
     let ver_alpha = ['a', 'Z', '0', '1', '9', '.', '~', '^', '_', '+'];
@@ -257,7 +257,7 @@ fn run(ctx: &Ctx, rep: &Report) {
     });
     rep.eval(nh as u64);
     rep.count("hostile_texts_enumerated", nh as u64);
-    let nrt: u64 = ctx.tier.pick(200_000, 60_000_000);
+    let nrt: u64 = ctx.tier.pick(200_000, 60_000_000) / if ctx.is_dbg() { 20 } else { 1 };
     par_for(ctx.threads, nrt / chunk, 1, |c| {
         let mut rng = Rng::for_case(ctx.seed, "C15-text", c);
         for _ in 0..chunk {
